@@ -335,6 +335,9 @@ func encryptsFreshMemory(p *Program, r *Reporter) {
 	if w := p.mustFunc(r, pkgApp, "writeChunkedSegment"); w != nil {
 		encryptBeforeWriteRule(p, r, w)
 	}
+	if la := p.mustFunc(r, pkgApp, "(*Server).laURLHandlerFunc"); la != nil {
+		respondOnceRule(p, r, la, 3)
+	}
 	r.Rule("E2-ENCPARAMS-RO", "key, IV and protection data of a representation are never written by request-serving code", 0)
 	reads, writes := 0, 0
 	seen := map[string]bool{}
